@@ -55,6 +55,24 @@ func (b *WriteBuffer) Append(batch RecordBatch) {
 	b.messageCount += int(batch.MessageCount)
 }
 
+// Requeue puts batches that a flush drained but could not upload back in front
+// of the batches appended since, so the next flush retries them in offset order.
+func (b *WriteBuffer) Requeue(batches []RecordBatch) {
+	if len(batches) == 0 {
+		return
+	}
+	b.mu.Lock()
+	defer b.mu.Unlock()
+	merged := make([]RecordBatch, 0, len(batches)+len(b.batches))
+	merged = append(merged, batches...)
+	merged = append(merged, b.batches...)
+	b.batches = merged
+	for _, batch := range batches {
+		b.sizeBytes += len(batch.Bytes)
+		b.messageCount += int(batch.MessageCount)
+	}
+}
+
 // ShouldFlush checks if size thresholds or time elapsed require a flush.
 func (b *WriteBuffer) ShouldFlush(now time.Time) bool {
 	b.mu.Lock()
